@@ -70,7 +70,8 @@ CHECKS = {
     'C06': _s('Bounded-exhaustive sweep of the real Allocation/Cell code: every '
               'forest shape of <=3 (quick) / <=4 (thorough) allocation nodes, '
               'depth <=3, built as Loader.load_allocations builds them, x node '
-              'menus (reserved, rank, rank adjustment, utilisation cap) x every '
+              'menus (reserved, rank in {0, 50, 100}, rank adjustment, utilisation '
+              'cap) x every '
               'population of <=3 / <=4 instances (priority, demand, running/'
               'pending) in every arrival order, as a stated list of complete '
               'product slices; both Allocation.utilization_queue output and '
@@ -81,7 +82,8 @@ CHECKS = {
               note='virtual clock gives distinct increasing global_order; '
                    'priority-0 = infinite utilisation by definition; boost '
                    'clause one-directional; integer menus; full 36x24 product '
-                   'only for <=2 nodes, reduced menus (named in evidence) above',
+                   'only for <=2 nodes, reduced menus (named in evidence) above; '
+                   'rank 0 only with rank adjustment 0',
               tech=TECH_BOUNDX, engine='boundx'),
     'C12': _s('Bounded-exhaustive sweep of the real EventMgr._synchronize/'
               '_cache + fs.write_safe on a temp root with an in-memory '
@@ -107,7 +109,8 @@ CHECKS = {
               'container exit/abort/oom, lagging tombstones, completion of '
               'each cleanup link; link invariants after every handler call '
               'and crash point, reconciliation clauses after every '
-              '_synchronize. 2 instances x 2 generations, <=2 deviations.',
+              '_synchronize, and a quiescence clause (queue drained, manager '
+              'active: running links match the current cache generation). 2 instances x 2 generations, <=2 deviations.',
               '5/C13',
               note='configure.configure replaced by a stand-in (reads the '
                    'event file, real gen_uniqueid, creates apps/<unique>/data); '
@@ -120,7 +123,8 @@ CHECKS = {
                    'enumeration inside handlers)'),
     'C14': _s('Explicit-state BFS over allocate/release/collect/owner-appears/'
               'disappears sequences of 2 (quick) / 3 (thorough) owners on the '
-              'real VipMgr (/30, /29), RuleMgr, EndpointsMgr and '
+              'real VipMgr (/30, /29, and two pools sharing one directory), '
+              'RuleMgr, EndpointsMgr and '
               'NetworkResourceService on temp directories against a dict '
               'reference entry->owner; plus exhaustive exploration (system-'
               'call granularity, preemption bounds in evidence) of all '
@@ -194,7 +198,9 @@ CHECKS = {
               'an in-memory ZooKeeper with a virtual clock over all '
               'populations of 2 shards, 2-3 instances, 0-3 events aged around '
               'the expiry, batch sizes, existing snapshots; every run is '
-              'killed before each ZooKeeper write in turn and re-run; '
+              'killed before each ZooKeeper write in turn, and each write in '
+              'turn is made to fail with ConnectionLoss (request lost / applied '
+              'but reply lost), then re-run; '
               'snapshots are inflated and opened with sqlite3.', '5/C18',
               note='fake ZooKeeper; atomic ordered writes; one archiver '
                    'session; get_children order is a menu; payloads of trace '
